@@ -973,7 +973,7 @@ func TestVerifC08(t *testing.T) {
 	types := []int{crypto.Ed25519, crypto.Secp256k1, crypto.ECDSA, crypto.RSA}
 	rounds := 2
 	if thorough {
-		rounds = 6
+		rounds = 8
 	}
 	for round := 0; round < rounds; round++ {
 		// fresh keys of every type each round (RSA only every other round in the quick tier: keygen cost)
@@ -985,9 +985,9 @@ func TestVerifC08(t *testing.T) {
 			isRSA := k.kt == 0
 			every := 1
 			if isRSA {
-				every = 7 // RSA envelopes are ~600 bytes: sample the interior positions (1/7 quick, 1/2 thorough)
+				every = 7 // RSA envelopes are ~600 bytes: the quick tier samples the interior positions 1/7
 				if thorough {
-					every = 2
+					every = 1
 				}
 			}
 			c08KeyCase(t, out, k)
